@@ -14,6 +14,26 @@ def run(ctx):
     n = sum(c for s, c in shapes.items() if s in ("lusers", "ison", "userhost", "register"))
     res.extra["statistics_probes"] = n
     res.floor("statistics_probes", n, 800)
+    from .. import slots
+    from ..runner import Finding
+    binary, hooks = ctx.binary()
+    so = slots.run(binary, hooks, ctx.seed, ctx.quick)
+    res.evaluations += so["opened"]
+    for c in so["classes"]:
+        res.distinct.add("slot:%s" % (c,))
+    for sig, detail in so["findings"]:
+        res.findings.append(Finding(sig, detail, {"engine": "slots"}))
+    if so["inconclusive"]:
+        res.inconclusive += 1
+        res.inconclusive_notes.append(so["inconclusive"])
+    res.extra["slot_rounds"] = so["rounds"]
+    res.extra["slot_connections_opened"] = so["opened"]
+    for smp in so["samples"][:2]:
+        res.add_sample(smp)
+    res.floor("slot_rounds", so["rounds"], 12)
+    res.rule += ("; slot driver: max_connections in {1,2,5}: open until refused (served = a probe line is answered, refused = "
+                 "closed without a word), never more than m served, end random subsets by 11 kinds of ending (registered or "
+                 "not, close/RST/QUIT/mid-line/invalid UTF-8/half-close/KILL), reopen: exactly m are served again")
     for r in results[:3]:
         if r.get("tail"):
             res.add_sample({"episode_seed": r["seed"], "last_commands": r["tail"]})
